@@ -9,12 +9,12 @@ HERE = os.path.dirname(os.path.dirname(os.path.abspath(__file__)))
 CHECKS = {
  "C01": (True,
    'bounded exhaustive exploration of the real API in a statement-counting instrumented build: all token sequences / byte strings / edit neighbourhoods up to a bound x six operations, plus exact step/allocation growth on adversarial families',
-   'Every token sequence <= 4/5 over the 28-token alphabet, every byte string <= 4/6 over 16 lexer-class representatives and <= 5/7 over 9 UTF-8 fragment bytes, every 1-edit neighbour of every depth-1 tree text, each with and without default field, is run through Parse, ToPostgres, ToParameterizedPostgres and (on accepted trees) String, GoString, json.Marshal under recover, in a build where every statement of the library increments a counter: a panic, a budget overrun (2x10^6 statements; need < 10^4) or a %! marker is a violation. 3 248 adversarial families frame(block^n) are run for n doubling to 1 024 / 8 192 tokens with exact statement and allocation counts, which must grow at most cubically.',
+   'Every token sequence <= 4/5 over the 28-token alphabet, every byte string <= 4/6 over 16 lexer-class representatives and <= 5/7 over 9 UTF-8 fragment bytes, every 1-edit neighbour of every depth-1 tree text, each with and without default field, is run through Parse, ToPostgres, ToParameterizedPostgres and (on accepted trees) String, GoString, json.Marshal under recover, in a build where every statement of the library increments a counter: a panic, a budget overrun (2x10^6 statements; need < 10^4) or a %! marker is a violation. 4 872 adversarial families frame(block^n) (812 blocks x 6 frames, incl. a fielded group under a default field) are run for n doubling from 16 to 1 024 / 8 192 tokens with exact statement and allocation counts; growth beyond 9x per doubling (from n=64) or beyond 20x the count at the previous size is a violation, with early exit.',
    "Polynomial time is decided as bounded growth on the enumerated families up to the length bound, not proved asymptotically. Instrumentation is regenerated from /repo's working tree on every run (go build -overlay).",
    "4/C01"),
  "C02": (True,
    "bounded exhaustive exploration of both renderers over all concatenations of hostile fragments in every value slot and lexical form plus all accepted token sequences, each output re-read by PostgreSQL's own grammar and scanner (confinement + whitelist reference)",
-   "Every concatenation of <= 2 (thorough 3 on the exposed slots) of 28 hostile fragments is placed in each of 8 slots (equality/comparison value, range bounds, list element, bare term, field name, default-field name) in each lexical form that can carry it (quoted, backslash-escaped, raw word) and rendered inline and parameterised; so is every accepted token sequence <= 4/5 with and without default field. Every successful render is parsed inside SELECT 1 FROM t WHERE (<sql>) by PostgreSQL 15's grammar: one statement, everything but the WHERE clause protobuf-equal to the template, no comment or ; token, only whitelisted node kinds, column references ⊆ names the harness wrote, string constants ⊆ values it wrote, numeric constants equal to its numbers, no user-derived constant in parameterised SQL except the documented '*'.",
+   "Every concatenation of <= 2 (thorough 3 on the exposed slots) of 35 hostile fragments (quotes, separators, comment openers, casts, NaN/Inf, NUL, invalid UTF-8, 64-byte runs, format/template placeholders) is placed in each of 8 slots (equality/comparison value, range bounds, list element, bare term, field name, default-field name) in each lexical form that can carry it (quoted, backslash-escaped, raw word) and rendered inline and parameterised; so is every accepted token sequence <= 4/5 with and without default field. Every successful render is parsed inside SELECT 1 FROM t WHERE (<sql>) by PostgreSQL 15's grammar: one statement, everything but the WHERE clause protobuf-equal to the template, no comment or ; token, only whitelisted node kinds, column references ⊆ names the harness wrote, string constants ⊆ values it wrote, numeric constants equal to its numbers, no user-derived constant in parameterised SQL except the documented '*'.",
    'Grammar-level only (no analysis-time typing); render errors are acceptable; names and values are known to the harness because it built the query (no reliance on Parse).',
    "4/C02"),
  "C03": (True,
@@ -44,7 +44,7 @@ CHECKS = {
    "4/C07"),
  "C08": (True,
    'bounded exhaustive exploration of lexer+parser+renderers over all strings up to a length bound in every value slot, oracle = the string itself (tree, PostgreSQL-decoded constant, parameter list)',
-   "Every string of <= 3/4 runes over 27 characters (28 for escaping) is written quoted resp. with a backslash before every special character as equality value, comparison value, either range bound, list element, bare term and field name; the parsed tree must be exactly the tree with that plain string; for quoted strings the inline SQL constant as decoded by PostgreSQL's scanner and the parameter list must contain exactly that string.",
+   "Every string of <= 4/5 runes over 27 characters (28 for escaping) is written quoted resp. with a backslash before every special character as equality value, comparison value, either range bound, list element, bare term (also as the whole query under a default field) and field name; the parsed tree must be exactly the tree with that plain string; for quoted strings the inline SQL constant as decoded by PostgreSQL's scanner and the parameter list must contain exactly that string.",
    'Characters are class representatives; strings Go reads as numbers and the four keywords are excluded from the escaping clause; longer strings are outside the bound.',
    "4/C08"),
  "C09": (True,
@@ -74,17 +74,17 @@ CHECKS = {
    "4/C13"),
  "C14": (True,
    "stateless model checking of the real library under a hand-written cooperative scheduler: statement points inserted by source instrumentation, all schedules up to a preemption bound for all ordered operation pairs on colliding inputs; plus exhaustive 2-call sequences against fresh-process references; free-running -race run as complement",
-   "The library source is instrumented from the working tree (a vsched.Point before every statement, via go build -overlay); harness threads run one at a time and the explorer enumerates every schedule with <= 1 preemption before any statement for all 121 ordered pairs of the 11 operations on a query that drives every shared table (plus the same shared *Expression and the package-level driver), every schedule with 2 preemptions where the second sits at a statement naming a package-level variable, 3 preemptions at such statements, and 3-thread scenarios at 1 preemption (thorough: 3 queries, 2 preemptions at function entries / anywhere for heavy pairs). Each schedule: no panic, each thread's result equals its sequential reference, shared expression DeepEqual to a fresh parse, all package-level variables (generated dump, includes variables added by a change) unchanged; first schedule of every scenario replayed and compared. E1: all 184k two-call sequences over 11 ops x 39 queries in one process against references computed in fresh processes.",
+   "The library source is instrumented from the working tree (a vsched.Point before every statement, via go build -overlay); harness threads run one at a time and the explorer enumerates every schedule with <= 1 preemption before any statement for all 121 ordered pairs of the 11 operations on a query that drives every shared table (same shared *Expression, same package-level driver), for 16 pairs of text operations on two different long queries (and 3-thread variants), every schedule with 2 preemptions where the second sits at a statement naming a package-level variable, 3 preemptions at such statements, and 3-thread scenarios at 1 preemption (thorough: 3 queries, 2 preemptions at function entries / anywhere for heavy pairs). Every schedule starts from the same history (a checked sequential prelude); per schedule: no panic, each thread's result equals its sequential reference, shared expressions DeepEqual to a fresh parse; the first schedule of every scenario is replayed and compared; real locks inside the library are survived (stall detection, free-running completion). E1: all 420k two-call sequences over 11 ops x 59 queries (incl. pairs a normalising cache would confuse) in one process against references computed in fresh processes.",
    "Granularity is the Go statement; torn writes inside one statement and races that do not change a result within the bound are left to the free-running -race complement (same bodies, 8 goroutines, GORACE=halt_on_error), which is reported but is not the deciding step.",
    "4/C14"),
  "C15": (True,
    'bounded exhaustive exploration of driver.Base.Render over configurations x trees with tracing render functions, checked against a fold reference model',
-   'All 40 configurations (all-tracing map, 19 single-operator overrides, 19 single-operator removals, the README construction) x every tree of T(25,1) ∪ T(6,2) (thorough T(25,2)) obtained both by Parse and through the public constructors: the call log must be exactly one call per node, to the function registered for that node\'s operator, after its children, with its children\'s results as (left, right) wrapped in parentheses at most, and Render\'s result must be the root call\'s result; with an operator removed Render must return ("", error) iff the tree contains it; ToPostgres/ToParameterizedPostgres must fail on every text containing ~ or ^.',
+   'All 41 configurations (all-tracing map, 19 single-operator overrides, 19 single-operator removals, the README construction) x every tree of T(25,1) ∪ T(6,2) (thorough T(25,2)) obtained both by Parse and through the public constructors: the call log must be exactly one call per node, to the function registered for that node\'s operator, after its children, with its children\'s results as (left, right) wrapped in parentheses at most, and Render\'s result must be the root call\'s result; with an operator removed Render must return ("", error) iff the tree contains it; ToPostgres/ToParameterizedPostgres must fail on every text containing ~ or ^, also after Fuzzy/Boost functions were registered in the function map of another driver.',
    'Serialisation of raw leaf values and the order in which independent children are rendered are not constrained (not part of the statement).',
    "4/C15"),
  "C16": (True,
    "bounded exhaustive (stateless) exploration of the real lexer: all byte strings over class representatives x all Peek/Next call sequences, against a token-list-with-cursor reference model",
-   "Every byte string of length <= L over 16 lexer-class representatives (and <= L+1 over 9 UTF-8 fragment bytes) is lexed by the real internal/lex; on each input every Peek/Next call sequence of length <= D is replayed on a fresh lexer and compared step by step with a stream model (token list + cursor); segmentation, EOF stickiness and must-fail classes (decided without the lexer) are checked on every input. Exhaustive inside the bounds, nothing sampled.",
+   "Every byte string of length <= L (5/6) over 17 lexer-class representatives incl. a multi-byte digit (and <= L+1 over 9 UTF-8 fragment bytes) is lexed by the real internal/lex; on each input every Peek/Next call sequence of length <= D is replayed on a fresh lexer and compared step by step with a stream model (token list + cursor); segmentation, EOF stickiness, must-fail classes and a must-lex class (blank-separated plain words are exactly those literal tokens), all decided without the lexer's rules, are checked on every input. Exhaustive inside the bounds, nothing sampled.",
    "Trusts: Go runtime; characters are represented by lexer class; inputs longer than L and call sequences longer than D are outside the bound.",
    "4/C16"),
 }
